@@ -190,7 +190,9 @@ pub fn permissive_specs(headers: &[(bool, bool, Vec<Vec<u8>>)]) -> Vec<Spec> {
         // (otherwise -113 from the dispatcher would hide the missing lexical rejection)
         let valid = |m: &Vec<u8>| {
             let b = if m.first() == Some(&b'*') { &m[1..] } else { &m[..] };
-            !b.is_empty() && b[0].is_ascii_alphabetic() && b.iter().all(|c| c.is_ascii_alphanumeric() || *c == b'_')
+            // (bytes >= 0x80 only ever get here from the library's own tokens of a message the reference rejects:
+            // a lexer that let them into a mnemonic must find a node too)
+            !b.is_empty() && (b[0].is_ascii_alphabetic() || b[0] >= 0x80) && b.iter().all(|c| c.is_ascii_alphanumeric() || *c == b'_' || *c >= 0x80)
         };
         if !mn.iter().all(valid) {
             continue;
